@@ -111,6 +111,7 @@ type gen struct {
 	scale  string
 	denoms []string
 	nAuc   int
+	whale  bool
 	// bookkeeping on drawn choices (reported as probes)
 	intents map[string]int
 }
@@ -149,6 +150,11 @@ func (g *gen) amount() *big.Int {
 	case "medium":
 		return big.NewInt(int64(g.in(1, 5_000_000)))
 	case "extreme":
+		if g.whale && g.chance(0.25) {
+			// of the order of the whale's balance: 2^254 .. 2^255.9
+			v := new(big.Int).Lsh(big.NewInt(1), 254)
+			return v.Add(v, new(big.Int).Rand(g.r, new(big.Int).Lsh(big.NewInt(3), 253)))
+		}
 		if g.chance(0.5) {
 			e := g.in(20, 70)
 			v := new(big.Int).Exp(big.NewInt(10), big.NewInt(int64(e)), nil)
@@ -206,6 +212,21 @@ func Generate(seed int64, profile string) *Schedule {
 			}
 		}
 		cfg.Poor[who] = pb
+	}
+	if p.Extreme && g.chance(0.5) {
+		// a whale holding more than half of the largest representable supply of two denominations
+		// (total supply must stay below 2^256, so there is only one)
+		who := g.in(0, nAct-1)
+		pb := map[string]string{}
+		for _, d := range g.denoms {
+			pb[d] = cfg.Balances[d]
+		}
+		whale := "90000000000000000000000000000000000000000000000000000000000000000000000000000" // 9e76 > 2^255
+		ds := g.r.Perm(len(g.denoms))
+		pb[g.denoms[ds[0]]] = whale
+		pb[g.denoms[ds[1]]] = whale
+		cfg.Poor[who] = pb
+		g.whale = true
 	}
 	// params
 	switch g.r.Intn(4) {
@@ -1103,7 +1124,7 @@ func (g *gen) txForeign(pm *Model) *Tx {
 	return &Tx{Actor: who, Msg: Msg{Kind: KSend, Who: who, ToKind: kind, ToAuction: id, Coins: []Coin{{denom, amt.String()}}}, Note: "foreign-deposit"}
 }
 
-var maxAmt = new(big.Int).Lsh(big.NewInt(1), 250)
+var maxAmt = new(big.Int).Sub(new(big.Int).Lsh(big.NewInt(1), 256), big.NewInt(1))
 
 func clampCoin(c *Coin) {
 	if c == nil {
